@@ -113,6 +113,17 @@ def judge(steps, obs):
                           "after %s the connected pipeline has asynchronous in %s" % (kind, modes2)))
             if any(post[m][0] is None for m in mem2) and loops2:
                 info["loopless_upstream_after_join"] += 1
+            # percolation: along every single-upstream edge of the whole graph the loop is shared (both unset or
+            # the same) and so is the asynchronous-vs-blocking mode — also for nodes that existed before
+            for j, ju in enumerate(ups_now):
+                if len(set(ju)) == 1 and not f:
+                    u = ju[0]
+                    if post[j][0] != post[u][0]:
+                        f.append(("C19/percolation/loop-not-shared-along-edge",
+                                  "after %s: node %d has loop %s but its only upstream %d has %s" % (kind, j, post[j][0], u, post[u][0])))
+                    elif bool(post[j][1]) != bool(post[u][1]):
+                        f.append(("C19/percolation/mode-not-shared-along-edge",
+                                  "after %s: node %d has asynchronous=%s but its only upstream %d has %s" % (kind, j, post[j][1], u, post[u][1])))
         if f:
             findings.extend((s, m, k) for s, m in f)
             break
